@@ -31,6 +31,22 @@ type liveScreen struct {
 func startScreen(ti *terminfo.Terminfo, w, h int, onWrite func([]byte)) (*liveScreen, error) {
 	tic := CopyTI(ti)
 	tic.PadChar = ""
+	return startScreenOn(tic, w, h, onWrite)
+}
+
+// startScreenShared builds the screen on the description the library's own registry hands
+// out for name (what NewScreen / NewTerminfoScreen do for an application): every screen of
+// the process opened for that terminal shares it, so whatever one screen leaves behind in it
+// is seen by the next.
+func startScreenShared(name string, w, h int, onWrite func([]byte)) (*liveScreen, error) {
+	ti, err := terminfo.LookupTerminfo(name)
+	if err != nil {
+		return nil, err
+	}
+	return startScreenOn(ti, w, h, onWrite)
+}
+
+func startScreenOn(tic *terminfo.Terminfo, w, h int, onWrite func([]byte)) (*liveScreen, error) {
 	ft := faketty.New(w, h)
 	ft.OnWrite = onWrite
 	s, err := tcell.NewTerminfoScreenFromTtyTerminfo(ft, tic)
